@@ -11,10 +11,11 @@ import (
 	"github.com/hyperledger/burrow/txs"
 )
 
-// Profile "create": a factory contract that deploys a child with CREATE and reports what it saw.  CREATE is outside the
-// Lean interpreter model (address derivation hashes the creator and a nonce), so the specification of these programs is
-// written down by construction: the generator knows the init code, hence what the EVM does with it, and emits the facts
-// that must hold (`expect`); the driver compares them with what the real interpreter did.
+// Profile "create", first half: a factory contract that deploys a child with CREATE and reports what it saw.  The
+// specification of these programs is written down by construction, independently of the Lean interpreter model: the
+// generator knows the init code, hence what the EVM does with it, and emits the facts that must hold (`expect`); the driver
+// compares them with what the real interpreter did — and, like every other case, runs the interpreter model (which now
+// contains CREATE / CREATE2) on the same program.  The second half of the profile is vm_gen_create2.go.
 //
 // factory:  [mem <- init code] [optional CALL of a child that returns 32 bytes] CREATE(value, 0, len)
 //           mem[0x40] <- result of CREATE ; mem[0x60] <- RETURNDATASIZE ; return mem[0x40..0x80)
@@ -22,7 +23,13 @@ import (
 // DerivedAddress is the address CREATE gives the n-th contract created in one execution (vm/contract.go: the nonce is the
 // transaction hash option, empty here, followed by the sequence number).
 func DerivedAddress(creator crypto.Address, seq uint64) crypto.Address {
+	return DerivedAddressN(creator, nil, seq)
+}
+
+// DerivedAddressN: the same with the CVM's nonce option (vm/contract.go copies it into the first 32 bytes).
+func DerivedAddressN(creator crypto.Address, txNonce []byte, seq uint64) crypto.Address {
 	nonce := make([]byte, txs.HashLength+8)
+	copy(nonce, txNonce)
 	binary.BigEndian.PutUint64(nonce[txs.HashLength:], seq)
 	return crypto.NewContractAddress(creator, nonce)
 }
@@ -30,7 +37,7 @@ func DerivedAddress(creator crypto.Address, seq uint64) crypto.Address {
 var createFactory = crypto.Address{0xfa, 0xc7, 0x00, 0x00, 0x00, 0x00, 0x00, 0x00, 0x00, 0x00, 0x00, 0x00, 0x00, 0x00, 0x00, 0x00, 0x00, 0x00, 0x00, 0x02}
 var createChild = crypto.Address{0xc1, 0x1d, 0x00, 0x00, 0x00, 0x00, 0x00, 0x00, 0x00, 0x00, 0x00, 0x00, 0x00, 0x00, 0x00, 0x00, 0x00, 0x00, 0x00, 0x01}
 
-func GenCreate(id int64) *VMCase {
+func GenCreateFactory(id int64) *VMCase {
 	r := rand.New(rand.NewSource(id*7919 + 13))
 	c := baseCase(id, "create", r)
 	type initKind struct {
@@ -148,4 +155,3 @@ func GenCreate(id int64) *VMCase {
 	return c
 }
 
-func init() { VMGenerators["create"] = GenCreate }
